@@ -93,10 +93,13 @@ def case(inp):
         if list(r) != [proj(f) for f in frags]:
             bad = [(x, proj(f)) for x, f in zip(r, frags) if x != proj(f)][:3]
             return False, ('return_type ' + rt + ' is a projection of the fragment list', [b[1] for b in bad]), [b[0] for b in bad], None
-    fr2 = Fragmenter(text, mono).fragment(types, charges, isotopes, water, ammonia, [tuple(x) for x in custom] or None, maxl, 'fragment', prec)
-    if [(f.ion_type, f.start, f.end, f.charge, f.isotope, f.loss, f.mass, f.mz, f.sequence) for f in fr2] != \
-            [(f.ion_type, f.start, f.end, f.charge, f.isotope, f.loss, f.mass, f.mz, f.sequence) for f in frags]:
-        return False, 'Fragmenter == fragment()', 'differs', None
+    fobj = Fragmenter(text, mono)
+    key_ = lambda fs: [(f.ion_type, f.start, f.end, f.charge, f.isotope, f.loss, f.mass, f.mz, f.sequence) for f in fs]
+    # the cached object is a projection of the same list on EVERY call (its cached masses survive a call)
+    for nth in (1, 2, 3):
+        fr2 = fobj.fragment(types, charges, isotopes, water, ammonia, [tuple(x) for x in custom] or None, maxl, 'fragment', prec)
+        if key_(fr2) != key_(frags):
+            return False, 'Fragmenter == fragment() (call number %d on the same object)' % nth, 'differs', None
     return True, None, None, ('c04', text, tuple(types)[:3], len(exp))
 
 
